@@ -489,8 +489,12 @@ type Factory struct {
 	mu    sync.Mutex // serialises executions on the factory node
 	nmu   sync.Mutex
 	nonce int64
-	Priv  crypto.PrivKey // genesis key: owns the coins
-	Addrs []string       // receivers of coins transfers
+	// Priv signs the factory's transactions. It is a key of its own, funded from the genesis account by
+	// FundTx: testnode's wallet holds all of util.TestPrivkeyList and rescans their transactions in the
+	// background, which must not race with reorganisations of the blocks under test.
+	Priv    crypto.PrivKey
+	Genesis crypto.PrivKey // genesis key: owns the coins at height 0
+	Addrs   []string       // receivers of coins transfers (no wallet key either)
 }
 
 // NewFactory starts the factory node (mining off; its own chain stays at genesis: blocks are
@@ -500,11 +504,46 @@ func NewFactory(seed int64) (*Factory, error) {
 	if err != nil {
 		return nil, err
 	}
-	f := &Factory{N: n, nonce: seed<<20 + 1, Priv: n.Mock.GetGenesisKey()}
+	f := &Factory{N: n, nonce: seed<<20 + 1, Genesis: n.Mock.GetGenesisKey()}
+	cr, err := crypto.Load(types.GetSignName("", types.SECP256K1), -1)
+	if err != nil {
+		n.Close()
+		return nil, err
+	}
+	key := func(tag string) (crypto.PrivKey, error) {
+		return cr.PrivKeyFromBytes(common.Sha256([]byte("verif-chain-" + tag)))
+	}
+	if f.Priv, err = key("sender"); err != nil {
+		n.Close()
+		return nil, err
+	}
 	for i := 0; i < 4; i++ {
-		f.Addrs = append(f.Addrs, address.PubKeyToAddr(address.DefaultID, util.TestPrivkeyList[2+i].PubKey().Bytes()))
+		k, err := key(fmt.Sprintf("receiver-%d", i))
+		if err != nil {
+			n.Close()
+			return nil, err
+		}
+		f.Addrs = append(f.Addrs, address.PubKeyToAddr(address.DefaultID, k.PubKey().Bytes()))
 	}
 	return f, nil
+}
+
+// SenderAddr is the address of the factory's own key.
+func (f *Factory) SenderAddr() string {
+	return address.PubKeyToAddr(address.DefaultID, f.Priv.PubKey().Bytes())
+}
+
+// FundTx transfers amount from the genesis account to the factory's key; put it into an early trunk block.
+func (f *Factory) FundTx(amount int64) *types.Transaction {
+	f.nmu.Lock()
+	f.nonce++
+	nonce := f.nonce
+	f.nmu.Unlock()
+	tx := util.CreateCoinsTx(f.N.Cfg, nil, f.SenderAddr(), amount)
+	tx.Nonce = nonce
+	tx.Expire = 0
+	tx.Sign(types.SECP256K1, f.Genesis)
+	return tx
 }
 
 // Close stops the factory node.
@@ -590,11 +629,16 @@ func (f *Factory) MakeOn(parentHash, prevState []byte, height, blockTime int64, 
 	return types.Clone(out).(*types.Block), nil
 }
 
-// ChainOf builds n blocks in a row on parent, one coins transfer each.
+// ChainOf builds n blocks in a row on parent, one coins transfer each; directly on genesis the
+// first block carries the funding of the factory's key instead.
 func (f *Factory) ChainOf(parent *types.Block, n int, bits uint32) ([]*types.Block, error) {
 	var out []*types.Block
 	for i := 0; i < n; i++ {
-		b, err := f.Make(parent, []*types.Transaction{f.CoinsTx(i, int64(1+i)*1e5)}, bits)
+		tx := f.CoinsTx(i, int64(1+i)*1e5)
+		if parent.Height == 0 {
+			tx = f.FundTx(1e15)
+		}
+		b, err := f.Make(parent, []*types.Transaction{tx}, bits)
 		if err != nil {
 			return nil, err
 		}
